@@ -139,6 +139,22 @@ func runCLIFull(dir, src string, p *spec.Program, o h.Opts, useStdin, useOutFile
 			}
 		}
 	} else {
+		if has("repeated-cc") && cc != "" {
+			// an option given twice: the later value replaces the earlier one (nothing is merged)
+			decoy := filepath.Join(dir, "decoy_command_config.json")
+			m := map[string]interface{}{}
+			for n, a := range p.AutoVars {
+				if a.ArgPos >= 0 {
+					m[n] = map[string]interface{}{"var_name": "VAR_DECOY"}
+				} else {
+					m[n] = map[string]interface{}{"var_name_arg_position": 0, "var_name": "VAR_DECOY"}
+				}
+			}
+			m["some_other_command"] = map[string]interface{}{"var_name": "VAR_DECOY"}
+			b, _ := json.Marshal(map[string]interface{}{"autovar_commands": m})
+			os.WriteFile(decoy, b, 0o644)
+			args = append(args, "-cc", decoy)
+		}
 		args = append(args, "-cc", cc)
 		if o.FontPath != "" {
 			args = append(args, "-fc", o.FontPath)
